@@ -131,6 +131,20 @@ pub fn seg_validate() -> Vec<u32> {
     out
 }
 
+/// 321 and 641 samples: 6 and 11 internal chunks (a tree reduction over chunk totals re-associates from 5 chunks on)
+pub fn seg_validate_large() -> Vec<u32> {
+    let mut net = network("adam");
+    let mut out = Vec::new();
+    for n in [321usize, 641] {
+        let (vx, vt) = samples(n, 5);
+        let (vxr, vtr): (Vec<&Tensor>, Vec<&Tensor>) = (vx.iter().collect(), vt.iter().collect());
+        let (l, a) = net.validate(&vxr, &vtr, 0.5);
+        out.push(l.to_bits());
+        out.push(a.to_bits());
+    }
+    out
+}
+
 pub fn seg_predict() -> Vec<u32> {
     let net = network("adam");
     let mut out = Vec::new();
@@ -165,7 +179,7 @@ pub fn partition(n: usize) -> Vec<Vec<usize>> {
         .collect()
 }
 
-pub const SEGMENTS: [&str; 10] = [
+pub const SEGMENTS: [&str; 11] = [
     "learn-adam-b2",
     "learn-adam-b3",
     "learn-adam-b5",
@@ -177,6 +191,7 @@ pub const SEGMENTS: [&str; 10] = [
     // beyond the small bound (explored with a cap on non-canonical choices per region)
     "learn-adam-b17",
     "learn-sgdm-b32",
+    "validate-large",
 ];
 
 pub fn run_segment(name: &str) -> Vec<u32> {
@@ -190,6 +205,7 @@ pub fn run_segment(name: &str) -> Vec<u32> {
         "learn-adam-b17" => seg_learn("adam", 17),
         "learn-sgdm-b32" => seg_learn("sgdm", 32),
         "validate" => seg_validate(),
+        "validate-large" => seg_validate_large(),
         "predict_batch" => seg_predict(),
         "canary" => seg_canary(),
         _ => panic!("unknown segment {}", name),
